@@ -117,16 +117,24 @@ def build_store(repo):
             lines.append("Acquire-By-Hash: yes")
         lines.append("Architectures: " + " ".join(sorted({a for cp in cs["components"].values() for a in cp.get("binaries", {})})))
         lines.append("Components: " + " ".join(cs["components"]))
-        for label, h in ALGOS:
-            if label not in cs.get("algos", ["MD5Sum", "SHA256"]):
-                continue
-            lines.append(f"{label}:")
-            for name, data in entries:
-                lines.append(f" {hashlib.new(h, data).hexdigest()} {len(data)} {name}")
-            for raw in cs.get("hostile", []):
-                if raw.get("algo", label) == label:
-                    lines.append(f" {raw['hash']} {raw['size']} {raw['name']}")
-        rel = ("\n".join(lines) + "\n").encode()
+        head = list(lines)
+
+        def render(algos):
+            out = list(head)
+            for label, h in ALGOS:
+                if label not in algos:
+                    continue
+                out.append(f"{label}:")
+                for name, data in entries:
+                    out.append(f" {hashlib.new(h, data).hexdigest()} {len(data)} {name}")
+                for raw in cs.get("hostile", []):
+                    if raw.get("algo", label) == label:
+                        out.append(f" {raw['hash']} {raw['size']} {raw['name']}")
+            return ("\n".join(out) + "\n").encode()
+        # "flavour_algos": {"InRelease": [...], "Release": [...]} - the two release files may list different checksum sections
+        fa = cs.get("flavour_algos", {})
+        rel = render(fa.get("Release", cs.get("algos", ["MD5Sum", "SHA256"])))
+        inrel = render(fa.get("InRelease", cs.get("algos", ["MD5Sum", "SHA256"])))
         rel_variant = cs.get("release_variant")  # alternative Release content for the InRelease flavour
         for name, data in entries:
             store[f"{base}/{name}"] = (data, date)
@@ -140,7 +148,7 @@ def build_store(repo):
         if "Release" in fl:
             store[f"{base}/Release"] = (rel, date)
         if "InRelease" in fl:
-            body = rel if rel_variant is None else rel_variant.encode()
+            body = inrel if rel_variant is None else rel_variant.encode()
             signed = (b"-----BEGIN PGP SIGNED MESSAGE-----\nHash: SHA256\n\n" + body +
                       b"-----BEGIN PGP SIGNATURE-----\n\niQEzBAEBCAAdFiEE\n=abcd\n-----END PGP SIGNATURE-----\n")
             store[f"{base}/InRelease"] = (signed, date)
